@@ -385,7 +385,7 @@ Proof.
   cbn -[n_map_opt].
   assert (E : n_map_opt as_boolv (map (fun c => PBool (is_many c)) cells) = Some (map is_many cells)).
   { induction cells as [|c t IH]; [reflexivity|]. cbn [map n_map_opt as_boolv PBool]. now rewrite IH. }
-  rewrite E. f_equal. f_equal. induction cells as [|c t IH]; [reflexivity|]. cbn [map existsb]. now rewrite IH.
+  rewrite E. do 3 f_equal. clear E. induction cells as [|c t IH]; [reflexivity|]. cbn [map existsb]. rewrite IH. reflexivity.
 Qed.
 
 Lemma any_eval cells loc : lookup "cells" loc = Some (PList (map enc_out cells)) ->
@@ -419,7 +419,7 @@ Proof.
   (* the if statement *)
   rewrite exec_block_cons, rr_if_shape.
   erewrite (exec_if call_ref PT _ _ _ _ _ (PBool (negb (existsb is_many cells))) (negb (existsb is_many cells))).
-  2:{ cbn [PyMini.eval]. erewrite eval_prim1; [|apply any_eval; exact Hc1]. cbn. destruct (existsb is_many cells); reflexivity. }
+  2:{ cbn [PyMini.eval]. rewrite (any_eval cells loc1 Hc1). cbn. destruct (existsb is_many cells); reflexivity. }
   2:{ destruct (existsb is_many cells); reflexivity. }
   assert (E2 : exists loc2, (if negb (existsb is_many cells)
                  then exec_block call_ref PT {| locals := loc1; fields := [] |} [SYield (XName "cells")]
@@ -443,7 +443,7 @@ Proof.
   2:{ reflexivity. }
   unfold row_pv. fold cells. destruct (o_spaced o).
   - rewrite exec_block_cons.
-    rewrite (exec_yield _ _ (PList (repeat (enc_s []) (length tvs0))) _ ); [|cbn; rewrite Hs2; reflexivity|exact Hy2].
+    erewrite (exec_yield _ _ (PList (repeat (enc_s []) (length tvs0)))); [|cbn; rewrite Hs2; reflexivity|exact Hy2].
     cbn [bind write locals fields]. rewrite exec_block_nil. cbn [bind]. rewrite exec_block_nil.
     eexists. split; [reflexivity|]. split.
     + apply (keep_inv loc2); [keep_tac|repeat split; assumption].
@@ -451,5 +451,83 @@ Proof.
   - rewrite exec_block_nil. cbn [bind]. rewrite exec_block_nil. exists loc2. split; [reflexivity|]. split.
     + repeat split; assumption.
     + now rewrite app_nil_r.
+Qed.
+
+Definition enc_rrow (r : list cellv) : pv := PList (map enc_rcell r).
+
+Lemma rows_loop : forall rows loc acc, rr_inv loc -> ylist loc = Some acc ->
+  exists loc',
+  for_loop call_ref PT rr_body "row" {| locals := loc; fields := [] |} (map enc_rrow rows) =
+  Ok (Next {| locals := loc'; fields := [] |}) /\ ylist loc' = Some (acc ++ flat_map row_pv rows) /\ rr_inv loc'.
+Proof.
+  induction rows as [|r rows IH]; intros loc acc Hi Hy.
+  - exists loc. rewrite for_loop_nil, app_nil_r. auto.
+  - cbn [map flat_map]. rewrite for_loop_cons. unfold enc_rrow at 1.
+    destruct (row_iter loc r acc Hi Hy) as [loc1 [E1 [I1 Hy1]]]. rewrite E1. cbn [bind].
+    destruct (IH loc1 (acc ++ row_pv r) I1 Hy1) as [loc' [E [Hy' I']]].
+    exists loc'. split; [exact E|]. split; [rewrite Hy', <- app_assoc; reflexivity|exact I'].
+Qed.
+
+Lemma concat_repeat1 {A} (x : A) n : concat (repeat [x] n) = repeat x n.
+Proof. induction n as [|n IH]; [reflexivity|]. cbn. now rewrite IH. Qed.
+
+Theorem render_rows_pv : forall rows,
+  call_function call_ref PT render_rows_fn [PList (map enc_rrow rows); PList (map rend tvs0); ctx] =
+  Ok (PList (flat_map row_pv rows)).
+Proof.
+  intros rows. destruct rr_shape as [Hp [Hg Hb]]. unfold call_function. rewrite Hp, Hg, Hb. cbn [bind_params].
+  rewrite exec_block_cons. erewrite exec_assign; [|reflexivity]. cbn [bind write locals fields update String.eqb Ascii.eqb Bool.eqb].
+  rewrite exec_block_cons. erewrite exec_assign.
+  2:{ cbn -[Z.of_nat Z.to_nat]. rewrite Nat2Z.id, concat_repeat1, map_length. reflexivity. }
+  cbn [bind write locals fields]. rewrite exec_block_cons.
+  erewrite (exec_for call_ref PT "row" (XName "rows") _ _ _ (map enc_rrow rows)); [|reflexivity].
+  fold rr_body.
+  match goal with |- context [for_loop _ _ _ _ {| locals := ?L; fields := _ |} _] =>
+    destruct (rows_loop rows L []) as [loc' [E [Hy' _]]] end.
+  { repeat split. } { reflexivity. }
+  change [SAssign (TName "cells") cells_expr; rr_if; rr_spaced] with rr_body.
+  rewrite E. cbn [bind]. rewrite exec_block_nil. cbn [bind locals app] in *.
+  unfold ylist in Hy'. destruct (lookup yield_var loc') as [[| l | | |]|]; try discriminate; injection Hy' as <-; reflexivity.
+Qed.
+
+(* ---- the lines as strings: Render.render_rows *)
+Lemma n_map_opt_app {A B} (g : A -> option B) l1 l2 r1 r2 :
+  n_map_opt g l1 = Some r1 -> n_map_opt g l2 = Some r2 -> n_map_opt g (l1 ++ l2) = Some (r1 ++ r2).
+Proof.
+  revert r1. induction l1 as [|a l1 IH]; intros r1 H1 H2; cbn in *.
+  - injection H1 as <-. exact H2.
+  - destruct (g a); [|discriminate]. destruct (n_map_opt g l1) eqn:E; [|discriminate]. injection H1 as <-.
+    now rewrite (IH l eq_refl H2).
+Qed.
+
+Lemma n_map_opt_map {A B C} (g : B -> option C) (h : A -> B) (k : A -> C) l :
+  (forall a, g (h a) = Some (k a)) -> n_map_opt g (map h l) = Some (map k l).
+Proof. intros H. induction l as [|a l IH]; [reflexivity|]. cbn [map n_map_opt]. now rewrite H, IH. Qed.
+
+Lemma row_pv_lines row : n_map_opt line_of (row_pv row) = Some (render_row numfmt o (map rstate_of tvs0) row).
+Proof.
+  unfold row_pv, render_row. set (cells := map2 (render_cell numfmt o) (map rstate_of tvs0) row).
+  apply n_map_opt_app.
+  - destruct (existsb is_many cells) eqn:Em.
+    + unfold many_lines. apply n_map_opt_map. intros i. unfold line_of. cbn [seq_of].
+      rewrite <- (map_map (fun c => nth i c []) enc_s). apply dec_enc_strs.
+    + cbn [n_map_opt line_of seq_of].
+      assert (E : map enc_out cells = map enc_s (map cell_str cells)).
+      { rewrite map_map. apply map_ext_in. intros c Hc. destruct c; [reflexivity|].
+        exfalso. assert (existsb is_many cells = true) by (apply existsb_exists; exists (Many l); auto). congruence. }
+      rewrite E, dec_enc_strs. reflexivity.
+  - destruct (o_spaced o); [|reflexivity]. cbn [n_map_opt line_of seq_of].
+    assert (E : repeat (enc_s []) (length tvs0) = map enc_s (map (fun _ => []) (map rstate_of tvs0))).
+    { rewrite !map_map. induction tvs0 as [|t l IH]; [reflexivity|]. cbn. now rewrite IH. }
+    rewrite E, dec_enc_strs. reflexivity.
+Qed.
+
+Theorem render_rows_src : forall rows, exists vs,
+  call_function call_ref PT render_rows_fn [PList (map enc_rrow rows); PList (map rend tvs0); ctx] = Ok (PList vs) /\
+  n_map_opt line_of vs = Some (render_rows numfmt o (map rstate_of tvs0) rows).
+Proof.
+  intros rows. exists (flat_map row_pv rows). split; [apply render_rows_pv|].
+  unfold render_rows. induction rows as [|r rows IH]; [reflexivity|]. cbn [flat_map].
+  apply n_map_opt_app; [apply row_pv_lines|exact IH].
 Qed.
 End Top.
